@@ -23,7 +23,7 @@ ASSUME = [
 def catalogue(tier: str):
     shapes = dict(cat.basic_shapes())
     P1 = lambda items: [('P1', items)]      # noqa
-    bc = ('broadcast', ['2'], ['b'], [{'environment': {'X': '1'}}])
+    bc = ('broadcast', ['1'], ['b'], [{'environment': {'X': '1'}}])
     rows = [
         # name, sections, fcp, extra spec keys, graph-faithful rider?
         ('chain2-f2', P1(shapes['chain2']), 2, {}, True),
@@ -32,9 +32,13 @@ def catalogue(tier: str):
         # cylc play --holdcp=1
         ('prevb-f2-holdpoint', P1(shapes['prevb']), 2,
          {'options': {'holdcp': '1'}, 'hold': 1}, True),
-        # a broadcast to a later cycle
-        ('prevb-f2-broadcast', P1(shapes['prevb']), 2,
+        # a broadcast to a task that has not run yet
+        ('chain2-f1-broadcast', P1(shapes['chain2']), 1,
          {'preamble': [bc]}, True),
+        # an xtrigger (satisfied once, remembered across the restart)
+        ('chain2-f1-xtrigger', P1(shapes['chain2']), 1,
+         {'xtriggers': {'x': 'echo(succeed=True)'},
+          'graph': {'P1': '@x => a\na => b'}}, True),
         # cylc play --stopcp=1
         ('prev-f2-stopcp1', P1(shapes['prev']), 2,
          {'options': {'stopcp': '1'}, 'stop': 1}, True),
@@ -49,6 +53,9 @@ def catalogue(tier: str):
     ]
     if tier == 'thorough':
         rows += [
+            ('prevb-f2-broadcast', P1(shapes['prevb']), 2,
+             {'preamble': [('broadcast', ['2'], ['b'],
+                            [{'environment': {'X': '1'}}])]}, True),
             ('and-f2', P1(shapes['and']), 2, {}, True),
             ('chain2-f2-holdpoint', P1(shapes['chain2']), 2,
              {'options': {'holdcp': '1'}, 'hold': 1}, True),
